@@ -219,6 +219,19 @@ func c16Triples(c *Ctx, n int) []c16Triple {
 			}
 		}
 	}
+	// a query and, after it, the text that Sprint makes of it (another spelling of the same structure: a numeral written otherwise, an
+	// AND that was left out, blanks): each text has its own answer, the one a fresh process gives
+	{
+		schema := "input: {\n\tname: string\n\tcount: number\n\titems: [...{v: string, n: number}]\n\t_dependencies: []\n}\n"
+		for _, q := range []string{"$.input.count.Less(2.50)", "$.input.count.Equal(007)", "{$.input.name.IsNull()}", "$.input.items[@.n.Greater(1.0)].Count().Less(1e1)", "{OR,$.input.count.Less(1.50),{$.input.name.IsNull()}}",
+			"$.input.count.Add(1 2)", `$.input.name.Equal("a" ; )`} {
+			ts = append(ts, c16Triple{q, schema, "", "query-then-its-printed-form", nil})
+			if op, err := mpath.ParseString(q); err == nil && op != nil {
+				ts = append(ts, c16Triple{op.Sprint(0), schema, "", "query-then-its-printed-form", nil})
+				ts = append(ts, c16Triple{q, schema, "", "query-then-its-printed-form", nil})
+			}
+		}
+	}
 	// step ids that contain a dot next to nested fields of the same spelling: `"job.out"` (one root field) and `job: {out: ..}`
 	for i := 0; i < 3; i++ {
 		schema := fmt.Sprintf("fetch: {r: string, _dependencies: []}\n\"job.out\": {r: string, n%d: int, _dependencies: [\"fetch\"]}\njob: {out: {r: int}, _dependencies: []}\n\"a.b.c\": {v: bool, _dependencies: [\"job.out\"]}\na: {b: {c: {v: string}}, _dependencies: []}\n", i)
